@@ -2103,6 +2103,7 @@ Grammar* DGXMLScanner::loadDTDGrammar(const InputSource& src,
 {
     // Reset the validators
     fDTDValidator->reset();
+    fDTDValidator->setErrorReporter(fErrorReporter);
     if (fValidatorFromUser)
         fValidator->reset();
 
